@@ -1,5 +1,7 @@
 import Cfdm.Lemmas.Indexing
 import Cfdm.Lemmas.LastSat
+import Cfdm.Lemmas.IndexBackend
+import Cfdm.Lemmas.FieldSubspace
 /-
 C03 — indexing, assignment and subspacing.  Property theorems only.
 -/
@@ -148,6 +150,27 @@ theorem C03_setitem_nd (ax : List (Int × List (List W) × List W))
   intro a ha
   exact lastSat_of_lastWrite _ _ _ (h a ha a.1)
 
+/-- **Values and masks.**  Whatever the elements are — in particular `β = Option α`, an element
+with its mask, `none` being `numpy.ma.masked` — the element finally found on any target after
+`_set_subspace`'s writes is the one numpy's sequential orthogonal assignment leaves there: the
+assigned value's element (masked or not) of the last write, or the original element (masked or
+not) if the target is not selected.  So a masked value element masks its target, an unmasked one
+unmasks it, and `cfdm.masked` (a value whose only element is `none`) masks exactly the selection. -/
+theorem C03_setitem_values_and_mask {β : Type} (orig : β) (value : List Nat → β)
+    (ax : List (Int × List (List W) × List W))
+    (h : ∀ a ∈ ax, ∀ pos, lastWrite a.2.1.flatten pos = lastWrite a.2.2 pos) :
+    finalElem orig value (matchAll (ax.map (fun a => qpos a.1))) (algoND (ax.map (·.2.1))) =
+    finalElem orig value (matchAll (ax.map (fun a => qpos a.1))) (product (ax.map (·.2.2))) := by
+  unfold finalElem
+  rw [C03_setitem_nd ax h]
+
+/-- Non-vacuity: the value `[some 7, none, some 9]` (middle element masked) assigned through the
+list `[1, 0, 0]` on an unmasked axis of 3: position 0 ends with `some 9` (last write), position 1
+with `some 7`, position 2 keeps the original. -/
+example : (fun t => finalElem (some 100) (fun i => [some 7, none, some 9].getD (i.headD 0) none)
+      (matchAll [qpos t]) (algoND [listGroups 3 [1, 0, 0]])) <$> [0, 1, 2] =
+    [some 9, some 7, some 100] := by decide
+
 /-- The per-axis hypothesis of `C03_setitem_nd` holds for the groups the model builds
 from any in-range list index. -/
 theorem C03_listGroups_ok (n : Nat) (l : List Int) (h : l.all (inRange n) = true) (pos : Int) :
@@ -195,5 +218,174 @@ theorem C03_bounds_reversal_slice (a b : Option Int) (c : Int) (n : Nat) (hc : c
       · simp [h]
       · have : 0 < c := by omega
         simp [h]
+
+/-- `netcdf_indexer.index_shape` (floating-point `abs((stop - start) / step)` rounded up, here in
+integer arithmetic) is the number of selected positions, for every slice on every axis size. -/
+theorem C03_index_shape (a b c : Option Int) (n : Nat) (hc : c ≠ some 0) :
+    indexShapeSlice a b c n = (slicePositions a b c n).length :=
+  Cfdm.IndexBackend.indexShapeSlice_eq a b c n hc
+
+example : indexShapeSlice (some 7) (some 1) (some (-3)) 10 = 2 := by decide
+example : indexShapeSlice (some (-20)) none (some 4) 9 = 3 := by decide
+
+/-! ### Variables that are not natively orthogonal (h5netcdf / h5py): `_variable_subspace` -/
+
+section Backend
+open Cfdm.IndexBackend
+
+/-- **Negative-step slice → ascending read + reversal.**  For every axis size and every
+start/stop/negative step (any sign, any distance out of range), the slice the code hands to the
+library — anchored on the LAST selected element — followed by `[::-1]` in memory selects exactly
+the positions of the original slice, in its order; and what goes to the library has a positive
+step (h5py accepts it). -/
+theorem C03_negstep_read (a b : Option Int) (c : Int) (n : Nat) (hc : c < 0) :
+    delivered n (convSlice a b (some c) n) = posNat n (.slice a b (some c)) ∧
+    h5Accepts n (convSlice a b (some c) n).read = true :=
+  ⟨convSlice_delivered a b (some c) n (by simp; omega), convSlice_accepted a b (some c) n (by simp; omega)⟩
+
+/-- Non-vacuity: `7:1:-3` on an axis of 10 selects 7, 4; `|step|` does not divide the span, the
+read is `4:8:3`. -/
+example : convSlice (some 7) (some 1) (some (-3)) 10 =
+    ⟨.slice (some 4) (some 8) (some 3), some (.slice none none (some (-1)))⟩ := by decide
+example : delivered 10 (convSlice (some 7) (some 1) (some (-3)) 10) = [7, 4] := by decide
+example : delivered 5 (convSlice (some (-7)) none (some (-2)) 5) = [] := by decide
+
+/-- Why the anchoring matters: swapping the adjusted bounds (`slice(stop+1, start+1, -step)`)
+selects other elements as soon as `|step|` does not divide the span. -/
+theorem C03_naive_conversion_counterexample :
+    delivered 10 (convSliceNaive (some 7) (some 1) (-3) 10) = [5, 2] ∧
+    posNat 10 (.slice (some 7) (some 1) (some (-3))) = [7, 4] := by decide
+
+/-- **Unsorted / repeated list → `np.unique` read + inverse.**  For every in-range list, the
+sorted distinct values read from the library (strictly increasing, as h5py demands) re-ordered by
+the inverse permutation are the listed positions, in order, repeats included. -/
+theorem C03_list_read (n : Nat) (l : List Int) (h : l.all (inRange n) = true) :
+    delivered n (convSel n (.list l)) = posNat n (.list l) ∧
+    h5Accepts n (convSel n (.list l)).read = true :=
+  ⟨convSel_delivered n (.list l) h, convSel_accepted n (.list l) h⟩
+
+example : convSel 5 (.list [3, -4, 3, 2]) =
+    ⟨.list [1, 2, 3], some (.list [2, 0, 2, 1])⟩ := by decide
+example : delivered 5 (convSel 5 (.list [3, -4, 3, 2])) = [3, 1, 3, 2] := by decide
+
+/-- `_variable_subspace` on a whole index tuple (every axis converted, one read, one re-order in
+memory) is the orthogonal per-axis take on every valid index. -/
+theorem C03_variable_subspace {α} (A : Arr α) (sels : List Sel)
+    (hwf : IndexBackend.selsWf A.shape sels = true) :
+    EqvIn (variableSubspace A sels) (takeAll A (IndexBackend.positionsNat A.shape sels)) :=
+  variableSubspace_eqv A sels hwf
+
+/-- **`netcdf_indexer._index` on such a variable with two or more sequence indices.**  The slices
+and ONE sequence go to `_variable_subspace`, the other sequences are applied one at a time in
+memory; whichever sequence the `argmin` heuristic sends first and in whatever order the rest
+follow, the result is the orthogonal per-axis take. -/
+theorem C03_index_nonorthogonal {α} (A : Arr α) (sels : List Sel) (first : Nat) (rest : List Nat)
+    (hwf : IndexBackend.selsWf A.shape sels = true) (hnd : rest.Nodup) (hf : first ∉ rest)
+    (hlists : ∀ k (h : k < sels.length), isList (sels[k]) = true ↔ (k = first ∨ k ∈ rest))
+    (hrest : ∀ k ∈ rest, k < sels.length) :
+    EqvIn (indexNonOrth A sels first rest) (takeAll A (IndexBackend.positionsNat A.shape sels)) :=
+  indexNonOrth_eqv A sels first rest hwf hnd hf hlists hrest
+
+/-- Non-vacuity: a 3-d array, a reversed strided slice between two unsorted lists. -/
+example : toList (indexNonOrth (iota [3, 5, 2])
+      [.list [2, 0, 2], .slice none (some 0) (some (-2)), .list [1, 0]] 2 [0]) =
+    toList (takeAll (iota [3, 5, 2]) [[2, 0, 2], [4, 2], [1, 0]]) := by decide
+
+end Backend
+
+/-! ### `Field.__getitem__`: the per-construct dice -/
+
+section FieldDice
+open Cfdm.IndexBackend Cfdm.FieldSubspace
+
+/-- **Subspacing a field.**  For every well-formed field (any number of constructs, each spanning
+any domain axes in ITS OWN order, with or without bounds / interior ring, whether or not the data
+span the axis) and every index expression that `Field.__getitem__` accepts: the data are the
+orthogonal per-axis take; no selected axis is empty; every domain axis spanned by the data is
+resized to the number of positions selected on it and the others keep their size; a construct
+spanning no data axis is untouched; every other construct receives exactly the per-axis take of
+its own array at the positions selected on the domain axes it spans (every position on the axes
+the data do not span), its interior ring and bounds follow on their leading axes, and the vertex
+axis of the bounds is kept whole, reversed exactly when `vertexReversed` (1-d constructs only)
+says so. -/
+theorem C03_field {α} (f g : FieldSubspace.Field α) (ix : List RawIx) (hwf : WF f)
+    (h : subspaceField f ix = .ok g) :
+    ∃ sels, parseIndices f.data.shape ix = .ok sels ∧ IndexBackend.selsWf f.data.shape sels = true ∧
+      g.dataAxes = f.dataAxes ∧
+      EqvIn g.data (takeAll f.data (IndexBackend.positionsNat f.data.shape sels)) ∧
+      (∀ p ∈ IndexBackend.positionsNat f.data.shape sels, p ≠ []) ∧
+      (∀ a ∈ f.axes.map Prod.fst, sizeOf g.axes a =
+        ((axisPositions f.dataAxes (IndexBackend.positionsNat f.data.shape sels) a).map List.length).getD
+          (sizeOf f.axes a)) ∧
+      g.constructs.length = f.constructs.length ∧
+      ∀ i (h1 : i < f.constructs.length) (h2 : i < g.constructs.length),
+        (needsSlicing f.dataAxes (f.constructs[i]).axes = false → g.constructs[i] = f.constructs[i]) ∧
+        (needsSlicing f.dataAxes (f.constructs[i]).axes = true →
+          ConstructSpec (f.constructs[i]) (g.constructs[i])
+            (specPositions f.dataAxes (IndexBackend.positionsNat f.data.shape sels) (f.constructs[i]).axes
+              (f.constructs[i]).data.shape)
+            (fun nv => vertexReversed (f.constructs[i]).data.shape nv
+              (diceOf f.dataAxes sels (f.constructs[i]).axes))) :=
+  subspaceField_ok f g ix hwf h
+
+/-- Non-vacuity: a well-formed 3 x 2 field with a 2-d construct stored in the OTHER axis order, a
+1-d coordinate with 2-vertex bounds and a coordinate on an axis the data do not span, subspaced
+with `[::-1, [1, 0]]` (full-length reversal, full-length permutation of a size-2 axis): the
+transposed construct is reversed along ITS second axis and permuted along its first, the bounds
+follow and their vertices are reversed, the unspanned coordinate is untouched. -/
+example : WF exField := exField_wf
+example : exSummary (subspaceField exField exIndex) =
+    [[3, 2, 1], [5, 4, 3, 2, 1, 0],
+     [2, 3], [5, 4, 3, 2, 1, 0], [],
+     [3], [2, 1, 0], [5, 4, 3, 2, 1, 0],
+     [1], [0], []] := by decide
+example : exSummary (subspaceField exField [.int (-1), .slice (some 5) none none]) = [] := by decide
+
+/-- An index expression selecting nothing on some data axis is refused (`IndexError`). -/
+theorem C03_field_rejects_empty {α} (f : FieldSubspace.Field α) (ix : List RawIx) (sels : List Sel)
+    (hp : parseIndices f.data.shape ix = .ok sels) (hwf : IndexBackend.selsWf f.data.shape sels = true)
+    (hempty : [] ∈ IndexBackend.positionsNat f.data.shape sels) :
+    subspaceField f ix = .error "IndexError" :=
+  subspaceField_rejects_empty f ix sels hp hwf hempty
+
+/-- ... and nothing else is refused: a well-formed field whose arrays have no zero extent accepts
+every well-formed index expression that selects something on every data axis.  (Together with
+`C03_field_rejects_empty`: a subspace is refused exactly when it would be empty.) -/
+theorem C03_field_accepts_nonempty {α} (f : FieldSubspace.Field α) (ix : List RawIx) (sels : List Sel)
+    (hwf : WF f) (hpos : Positive f)
+    (hp : parseIndices f.data.shape ix = .ok sels) (hs : IndexBackend.selsWf f.data.shape sels = true)
+    (hne : ∀ p ∈ IndexBackend.positionsNat f.data.shape sels, p ≠ []) :
+    ∃ g, subspaceField f ix = .ok g :=
+  subspaceField_accepts f ix sels hwf hpos hp hs hne
+
+example : Positive exField := exField_positive
+
+/-- For a construct spanning no data axis the specification asks for every position of every
+axis, i.e. for the array itself: leaving it untouched is the per-axis take. -/
+theorem C03_field_unspanned {α} (f : FieldSubspace.Field α) (c : Construct α) (P : List (List Nat))
+    (hc : c.data.shape.length = c.axes.length) (h : needsSlicing f.dataAxes c.axes = false) :
+    EqvIn c.data (takeAll c.data (specPositions f.dataAxes P c.axes c.data.shape)) := by
+  rw [specPositions_unspanned _ _ _ _ hc h]
+  exact takeAll_ranges c.data
+
+/-- Re-parsing an already parsed index tuple (what every construct's `Data.__getitem__` does with
+the dice) returns it unchanged, padded with `slice(None)` for trailing axes (bounds, rings). -/
+theorem C03_parse_idempotent (shape : List Nat) (ix : List RawIx) (sels : List Sel) (extra : List Nat)
+    (h : parseIndices shape ix = .ok sels) (hlen : sels.length = shape.length) :
+    parseIndices (shape ++ extra) (sels.map toRaw) = .ok (sels ++ List.replicate extra.length full) := by
+  have := parse_reparse (shape ++ extra) sels (by simp [hlen])
+    (by intro h0; simp only [List.length_append] at h0; exact List.eq_nil_of_length_eq_zero (by omega))
+    (parse_parsedForm _ _ _ h)
+  simpa [hlen] using this
+
+/-- The list rule of the bounds reversal (on normalised entries): a strictly decreasing selection
+of at least two cells reverses the vertices, a strictly increasing one does not.  (Slices:
+`C03_bounds_reversal_slice`.) -/
+theorem C03_bounds_reversal_list (a b : Int) (mid : List Int) :
+    ((a :: (mid ++ [b])).Pairwise (· > ·) → boundsReversed (.list (a :: (mid ++ [b]))) = true) ∧
+    ((a :: (mid ++ [b])).Pairwise (· < ·) → boundsReversed (.list (a :: (mid ++ [b]))) = false) :=
+  ⟨boundsReversed_list_decreasing a b mid, boundsReversed_list_increasing a b mid⟩
+
+end FieldDice
 
 end Cfdm.Props.C03
